@@ -4,6 +4,7 @@ import (
 	"fmt"
 	"os"
 	"path/filepath"
+	"reflect"
 	"runtime"
 	"sort"
 	"strings"
@@ -102,6 +103,22 @@ func concOps() []concOp {
 			out, err := textwire.EvaluateString("{{ v = {a: 1} }}{{ w = \"x\" }}{{ v.a }}{{ w }}", nil)
 			return fmt.Sprintf("out=%s err=%v", out, err)
 		}},
+		// names never seen before in this process: a mail address after '@', a property reached through its
+		// capitalised spelling, a struct type built for this call - whatever is memoised per name is filled
+		// in under contention
+		{"EvaluateString(fresh names)", false, func(tpl *textwire.Template, data map[string]any, abs string) string {
+			n := freshCounter.Add(1)
+			st := reflect.StructOf([]reflect.StructField{{Name: "F", Type: reflect.TypeOf(0)}, {Name: fmt.Sprintf("X%d", n), Type: reflect.TypeOf("")}})
+			sv := reflect.New(st).Elem()
+			sv.Field(0).SetInt(n)
+			src := fmt.Sprintf("mail%d@host%d.example @w%d {{ u.k%d }} {{ s.f }} {{ {zz%d: 1, aa: 2}.aa }}", n, n, n, n, n)
+			want := fmt.Sprintf("mail%d@host%d.example @w%d %d %d 2", n, n, n, n, n)
+			out, err := textwire.EvaluateString(src, map[string]any{"u": map[string]any{fmt.Sprintf("K%d", n): n}, "s": sv.Interface()})
+			if err != nil || out != want {
+				return fmt.Sprintf("fresh names: got (%q, %v), want %q", out, err, want)
+			}
+			return "fresh names rendered as expected"
+		}},
 		{"EvaluateFile(plain)", false, func(tpl *textwire.Template, data map[string]any, abs string) string {
 			out, err := textwire.EvaluateFile(abs, data)
 			return fmt.Sprintf("out=%s err=%v", out, err)
@@ -114,6 +131,8 @@ func sortedChars(s string) string {
 	sort.Strings(parts)
 	return strings.Join(parts, ",")
 }
+
+var freshCounter atomic.Int64
 
 type opRecord struct {
 	g, op     int
@@ -130,7 +149,7 @@ func init() {
 		Race:       true,
 		MaxWorkers: 6,
 		CPUBudget:  120,
-		Rule: "rounds of G in {2, 8, 32(,128)} goroutines x GOMAXPROCS in {1, 2, 16}, every goroutine issuing 200 operations drawn (seeded) from 21 concrete calls on one loaded tree - String of a layout+component-in-loop page, a loop page, an object/dump page, two pages failing at run time, a missing name, a shuffle() page; Response ok/failing/missing (error page through the string API); EvaluateString ok/failing; EvaluateFile; loops that fail in a later pass after producing output; renders without any data that assign names at top level (as integer, string, boolean, object) next to one that reads the name and must fail - with goroutine-specific data otherwise; a registered custom function called from inside the templates yields or sleeps 50us on a seeded schedule. " +
+		Rule: "rounds of G in {2, 8, 32(,128)} goroutines x GOMAXPROCS in {1, 2, 16}, every goroutine issuing 200 operations drawn (seeded) from 22 concrete calls on one loaded tree - String of a layout+component-in-loop page, a loop page, an object/dump page, two pages failing at run time, a missing name, a shuffle() page; Response ok/failing/missing (error page through the string API); EvaluateString ok/failing; EvaluateFile; loops that fail in a later pass after producing output; renders without any data that assign names at top level (as integer, string, boolean, object) next to one that reads the name and must fail - with goroutine-specific data otherwise; a registered custom function called from inside the templates yields or sleeps 50us on a seeded schedule. " +
 			"Oracles: the harness is built with the Go race detector (halt_on_error=0, log per process); after the rounds the log is parsed and every report with a frame inside the repository is a violation (de-duplicated by the pair of innermost repository frames); the recorded history (goroutine, operation, logical call/return stamps from one atomic counter, result) is checked offline against the stateless model: every result must equal what the same operation returned alone before the round (shuffle as a multiset). Evidence counts operations that overlapped an operation of a different kind. distinct_nontrivial = distinct (round, goroutine, operation) triples that overlapped another kind",
 		Assumptions: []string{
 			"only interleavings the scheduler produced; the race detector sees races between accesses that actually executed",
